@@ -66,6 +66,10 @@ variables
   nsend  = 0,
   lost   = FALSE,                   \* a signal was suppressed/ignored while the debugger no longer remembers it
   badrecv = FALSE,                  \* a prompt named a thread that is not in the delivery-stop of that signal
+  \* scenario ghost (part of the VIEW, so that TLC prints a behaviour of the family whenever one exists):
+  \* 1 = non-quiet signal sent to famwho, 2 = a step reported it (it is parked on the queue), 3 = a quiet signal was
+  \* sent to the same thread while the next command can still be / is a step, 4 = that second step has returned
+  fam = 0, famwho = None,
   \* ---------------- debugger ----------------
   tstate = [t \in Threads |-> "stopped"],
   guard  = FALSE,
@@ -352,6 +356,7 @@ d0: while (phase # "done") {
         if (phase = "runout") { cmd := "continue"; }
         else { with (c \in Cmds) { cmd := c; }; };
 d0h:    hist := Append(hist, [cmd |-> cmd]);
+        if (fam \in {1, 2, 3} /\ cmd \notin {"stepi", "step"}) { fam := 0; };
         if (cmd = "continue") { call continue_execution(); }
         else if (cmd = "stepi") { call stepi(); }
         else { call stepline(); };
@@ -363,12 +368,16 @@ d1:     ncmd := ncmd + 1; atPrompt := TRUE;
           if (~(kst[retpid] = "stopped" /\ kstop[retpid] = "signal" /\ ksig[retpid] = retsig)) { badrecv := TRUE; };
         };
         hist := Append(hist, [stop |-> ret, tid |-> retpid, sig |-> retsig]);
+        if (fam = 1) {
+          if (ret = "signal" /\ retsig \notin (Quiet \cup Transparent) /\ retpid = famwho) { fam := 2; } else { fam := 0; };
+        } else if (fam = 3) { fam := 4; }
+        else if (fam = 2) { fam := 0; };
       };
     };
 dz: if (Gen) {
       print <<"BEH", ToJson([hist |-> hist, sent |-> sent, deliv |-> deliv, prom |-> prom, taken |-> taken,
                              lost |-> lost, badrecv |-> badrecv, exited |-> AllGone, dead |-> dead,
-                             nthreads |-> Cardinality(Threads), broken |-> Broken])>>;
+                             nthreads |-> Cardinality(Threads), broken |-> Broken, fam |-> fam])>>;
     };
 }
 
@@ -379,6 +388,8 @@ e0: while (nsend < MaxSend) {
       with (s \in Sigs,
             tgt \in {x \in Threads : Live(x)} \cup (IF ProcTarget /\ \E x \in Threads : Live(x) THEN {Proc} ELSE {})) {
         nsend := nsend + 1;
+        if (fam = 0 /\ s \notin (Quiet \cup Transparent) /\ tgt # Proc) { fam := 1; famwho := tgt; }
+        else if (fam = 2 /\ s \in Quiet /\ tgt = famwho) { fam := 3; };
         if (tgt = Proc) {
           hist := Append(hist, [send |-> s, to |-> tgt, after |-> lastsys, prompt |-> atPrompt, coal |-> s \in shpend]);
           if (s \notin shpend) { shpend := shpend \cup {s}; sent[s] := sent[s] + 1; };
@@ -430,8 +441,9 @@ t0: while (kst[self] # "exited" /\ kst[self] # "zombie") {
 CONSTANT defaultInitValue
 VARIABLES pc, code, kst, kstop, ksig, unrep, rip, sstep, intr, hpend, inh, 
           adv, iter, pend, shpend, sent, deliv, taken, prom, nsend, lost, 
-          badrecv, tstate, guard, focus, sigq, ncmd, atPrompt, dead, phase, 
-          wst, ret, retpid, retsig, round, hist, nsys, lastsys, stack
+          badrecv, fam, famwho, tstate, guard, focus, sigq, ncmd, atPrompt, 
+          dead, phase, wst, ret, retpid, retsig, round, hist, nsys, lastsys, 
+          stack
 
 (* define statement *)
 Reportable(t) == kst[t] \in {"stopped","zombie"} /\ unrep[t]
@@ -474,9 +486,10 @@ VARIABLES initiator, gtodo, gt, gdone, gabort, st, stid, ctodo, inj, cmd
 
 vars == << pc, code, kst, kstop, ksig, unrep, rip, sstep, intr, hpend, inh, 
            adv, iter, pend, shpend, sent, deliv, taken, prom, nsend, lost, 
-           badrecv, tstate, guard, focus, sigq, ncmd, atPrompt, dead, phase, 
-           wst, ret, retpid, retsig, round, hist, nsys, lastsys, stack, 
-           initiator, gtodo, gt, gdone, gabort, st, stid, ctodo, inj, cmd >>
+           badrecv, fam, famwho, tstate, guard, focus, sigq, ncmd, atPrompt, 
+           dead, phase, wst, ret, retpid, retsig, round, hist, nsys, lastsys, 
+           stack, initiator, gtodo, gt, gdone, gabort, st, stid, ctodo, inj, 
+           cmd >>
 
 ProcSet == {0} \cup {100} \cup (Threads)
 
@@ -502,6 +515,8 @@ Init == (* Global variables *)
         /\ nsend = 0
         /\ lost = FALSE
         /\ badrecv = FALSE
+        /\ fam = 0
+        /\ famwho = None
         /\ tstate = [t \in Threads |-> "stopped"]
         /\ guard = FALSE
         /\ focus = Main
@@ -552,10 +567,10 @@ gs0(self) == /\ pc[self] = "gs0"
                                         gabort >>
              /\ UNCHANGED << code, kst, kstop, ksig, unrep, rip, sstep, intr, 
                              hpend, inh, adv, iter, pend, shpend, sent, deliv, 
-                             taken, prom, nsend, lost, badrecv, tstate, guard, 
-                             focus, sigq, ncmd, atPrompt, dead, phase, wst, 
-                             ret, retpid, retsig, round, hist, nsys, lastsys, 
-                             st, stid, ctodo, inj, cmd >>
+                             taken, prom, nsend, lost, badrecv, fam, famwho, 
+                             tstate, guard, focus, sigq, ncmd, atPrompt, dead, 
+                             phase, wst, ret, retpid, retsig, round, hist, 
+                             nsys, lastsys, st, stid, ctodo, inj, cmd >>
 
 gs1(self) == /\ pc[self] = "gs1"
              /\ guard' = TRUE
@@ -563,11 +578,11 @@ gs1(self) == /\ pc[self] = "gs1"
              /\ pc' = [pc EXCEPT ![self] = "gs1b"]
              /\ UNCHANGED << code, kst, kstop, ksig, unrep, rip, sstep, intr, 
                              hpend, inh, adv, iter, pend, shpend, sent, deliv, 
-                             taken, prom, nsend, lost, badrecv, tstate, focus, 
-                             sigq, ncmd, atPrompt, dead, phase, wst, ret, 
-                             retpid, retsig, round, hist, nsys, lastsys, stack, 
-                             initiator, gtodo, gt, gdone, st, stid, ctodo, inj, 
-                             cmd >>
+                             taken, prom, nsend, lost, badrecv, fam, famwho, 
+                             tstate, focus, sigq, ncmd, atPrompt, dead, phase, 
+                             wst, ret, retpid, retsig, round, hist, nsys, 
+                             lastsys, stack, initiator, gtodo, gt, gdone, st, 
+                             stid, ctodo, inj, cmd >>
 
 gs1b(self) == /\ pc[self] = "gs1b"
               /\ IF \A t \in Threads : tstate[t] = "gone" \/ t = initiator[self]
@@ -584,21 +599,21 @@ gs1b(self) == /\ pc[self] = "gs1b"
                                          gdone, gabort >>
               /\ UNCHANGED << code, kst, kstop, ksig, unrep, rip, sstep, intr, 
                               hpend, inh, adv, iter, pend, shpend, sent, deliv, 
-                              taken, prom, nsend, lost, badrecv, tstate, focus, 
-                              sigq, ncmd, atPrompt, dead, phase, wst, ret, 
-                              retpid, retsig, round, hist, nsys, lastsys, st, 
-                              stid, ctodo, inj, cmd >>
+                              taken, prom, nsend, lost, badrecv, fam, famwho, 
+                              tstate, focus, sigq, ncmd, atPrompt, dead, phase, 
+                              wst, ret, retpid, retsig, round, hist, nsys, 
+                              lastsys, st, stid, ctodo, inj, cmd >>
 
 gs2(self) == /\ pc[self] = "gs2"
              /\ round' = 0
              /\ pc' = [pc EXCEPT ![self] = "gsr"]
              /\ UNCHANGED << code, kst, kstop, ksig, unrep, rip, sstep, intr, 
                              hpend, inh, adv, iter, pend, shpend, sent, deliv, 
-                             taken, prom, nsend, lost, badrecv, tstate, guard, 
-                             focus, sigq, ncmd, atPrompt, dead, phase, wst, 
-                             ret, retpid, retsig, hist, nsys, lastsys, stack, 
-                             initiator, gtodo, gt, gdone, gabort, st, stid, 
-                             ctodo, inj, cmd >>
+                             taken, prom, nsend, lost, badrecv, fam, famwho, 
+                             tstate, guard, focus, sigq, ncmd, atPrompt, dead, 
+                             phase, wst, ret, retpid, retsig, hist, nsys, 
+                             lastsys, stack, initiator, gtodo, gt, gdone, 
+                             gabort, st, stid, ctodo, inj, cmd >>
 
 gsr(self) == /\ pc[self] = "gsr"
              /\ IF round < 2 /\ ~gabort[self]
@@ -608,11 +623,11 @@ gsr(self) == /\ pc[self] = "gsr"
                         /\ gtodo' = gtodo
              /\ UNCHANGED << code, kst, kstop, ksig, unrep, rip, sstep, intr, 
                              hpend, inh, adv, iter, pend, shpend, sent, deliv, 
-                             taken, prom, nsend, lost, badrecv, tstate, guard, 
-                             focus, sigq, ncmd, atPrompt, dead, phase, wst, 
-                             ret, retpid, retsig, round, hist, nsys, lastsys, 
-                             stack, initiator, gt, gdone, gabort, st, stid, 
-                             ctodo, inj, cmd >>
+                             taken, prom, nsend, lost, badrecv, fam, famwho, 
+                             tstate, guard, focus, sigq, ncmd, atPrompt, dead, 
+                             phase, wst, ret, retpid, retsig, round, hist, 
+                             nsys, lastsys, stack, initiator, gt, gdone, 
+                             gabort, st, stid, ctodo, inj, cmd >>
 
 gsl(self) == /\ pc[self] = "gsl"
              /\ IF gtodo[self] # {} /\ ~gabort[self]
@@ -624,11 +639,11 @@ gsl(self) == /\ pc[self] = "gsl"
                         /\ UNCHANGED << gtodo, gt >>
              /\ UNCHANGED << code, kst, kstop, ksig, unrep, rip, sstep, intr, 
                              hpend, inh, adv, iter, pend, shpend, sent, deliv, 
-                             taken, prom, nsend, lost, badrecv, tstate, guard, 
-                             focus, sigq, ncmd, atPrompt, dead, phase, wst, 
-                             ret, retpid, retsig, round, hist, nsys, lastsys, 
-                             stack, initiator, gdone, gabort, st, stid, ctodo, 
-                             inj, cmd >>
+                             taken, prom, nsend, lost, badrecv, fam, famwho, 
+                             tstate, guard, focus, sigq, ncmd, atPrompt, dead, 
+                             phase, wst, ret, retpid, retsig, round, hist, 
+                             nsys, lastsys, stack, initiator, gdone, gabort, 
+                             st, stid, ctodo, inj, cmd >>
 
 gsk(self) == /\ pc[self] = "gsk"
              /\ IF tstate[gt[self]] = "running"
@@ -646,10 +661,11 @@ gsk(self) == /\ pc[self] = "gsk"
                         /\ UNCHANGED << intr, tstate, nsys, lastsys, gdone >>
              /\ UNCHANGED << code, kst, kstop, ksig, unrep, rip, sstep, hpend, 
                              inh, adv, iter, pend, shpend, sent, deliv, taken, 
-                             prom, nsend, lost, badrecv, guard, focus, sigq, 
-                             ncmd, atPrompt, dead, phase, wst, ret, retpid, 
-                             retsig, round, hist, stack, initiator, gtodo, gt, 
-                             gabort, st, stid, ctodo, inj, cmd >>
+                             prom, nsend, lost, badrecv, fam, famwho, guard, 
+                             focus, sigq, ncmd, atPrompt, dead, phase, wst, 
+                             ret, retpid, retsig, round, hist, stack, 
+                             initiator, gtodo, gt, gabort, st, stid, ctodo, 
+                             inj, cmd >>
 
 gsj(self) == /\ pc[self] = "gsj"
              /\ IF ~gdone[self]
@@ -657,11 +673,11 @@ gsj(self) == /\ pc[self] = "gsj"
                    ELSE /\ pc' = [pc EXCEPT ![self] = "gsl"]
              /\ UNCHANGED << code, kst, kstop, ksig, unrep, rip, sstep, intr, 
                              hpend, inh, adv, iter, pend, shpend, sent, deliv, 
-                             taken, prom, nsend, lost, badrecv, tstate, guard, 
-                             focus, sigq, ncmd, atPrompt, dead, phase, wst, 
-                             ret, retpid, retsig, round, hist, nsys, lastsys, 
-                             stack, initiator, gtodo, gt, gdone, gabort, st, 
-                             stid, ctodo, inj, cmd >>
+                             taken, prom, nsend, lost, badrecv, fam, famwho, 
+                             tstate, guard, focus, sigq, ncmd, atPrompt, dead, 
+                             phase, wst, ret, retpid, retsig, round, hist, 
+                             nsys, lastsys, stack, initiator, gtodo, gt, gdone, 
+                             gabort, st, stid, ctodo, inj, cmd >>
 
 gsw(self) == /\ pc[self] = "gsw"
              /\ \E t \in Threads : (gt[self] = None \/ gt[self] = t) /\ Reportable(t)
@@ -677,10 +693,11 @@ gsw(self) == /\ pc[self] = "gsw"
              /\ pc' = [pc EXCEPT ![self] = "gsc"]
              /\ UNCHANGED << code, kstop, ksig, rip, sstep, intr, hpend, inh, 
                              adv, iter, pend, shpend, sent, deliv, taken, prom, 
-                             nsend, lost, badrecv, tstate, guard, focus, sigq, 
-                             ncmd, atPrompt, dead, phase, ret, retpid, retsig, 
-                             round, hist, stack, initiator, gtodo, gt, gdone, 
-                             gabort, st, stid, ctodo, inj, cmd >>
+                             nsend, lost, badrecv, fam, famwho, tstate, guard, 
+                             focus, sigq, ncmd, atPrompt, dead, phase, ret, 
+                             retpid, retsig, round, hist, stack, initiator, 
+                             gtodo, gt, gdone, gabort, st, stid, ctodo, inj, 
+                             cmd >>
 
 gsc(self) == /\ pc[self] = "gsc"
              /\ IF wst.kind # "event_stop" /\ ~gdone[self]
@@ -694,11 +711,11 @@ gsc(self) == /\ pc[self] = "gsc"
                         /\ UNCHANGED << stack, st >>
              /\ UNCHANGED << code, kst, kstop, ksig, unrep, rip, sstep, intr, 
                              hpend, inh, adv, iter, pend, shpend, sent, deliv, 
-                             taken, prom, nsend, lost, badrecv, tstate, guard, 
-                             focus, sigq, ncmd, atPrompt, dead, phase, wst, 
-                             ret, retpid, retsig, round, hist, nsys, lastsys, 
-                             initiator, gtodo, gt, gdone, gabort, stid, ctodo, 
-                             inj, cmd >>
+                             taken, prom, nsend, lost, badrecv, fam, famwho, 
+                             tstate, guard, focus, sigq, ncmd, atPrompt, dead, 
+                             phase, wst, ret, retpid, retsig, round, hist, 
+                             nsys, lastsys, initiator, gtodo, gt, gdone, 
+                             gabort, stid, ctodo, inj, cmd >>
 
 gsd(self) == /\ pc[self] = "gsd"
              /\ IF ret = "brkpt" /\ retpid = gt[self]
@@ -719,11 +736,11 @@ gsd(self) == /\ pc[self] = "gsd"
              /\ pc' = [pc EXCEPT ![self] = "gsw2"]
              /\ UNCHANGED << code, kst, kstop, ksig, unrep, rip, sstep, intr, 
                              hpend, inh, adv, iter, pend, shpend, sent, deliv, 
-                             taken, prom, nsend, lost, badrecv, tstate, guard, 
-                             focus, sigq, ncmd, atPrompt, dead, phase, wst, 
-                             ret, retpid, retsig, round, hist, nsys, lastsys, 
-                             stack, initiator, gtodo, gt, st, stid, ctodo, inj, 
-                             cmd >>
+                             taken, prom, nsend, lost, badrecv, fam, famwho, 
+                             tstate, guard, focus, sigq, ncmd, atPrompt, dead, 
+                             phase, wst, ret, retpid, retsig, round, hist, 
+                             nsys, lastsys, stack, initiator, gtodo, gt, st, 
+                             stid, ctodo, inj, cmd >>
 
 gsw2(self) == /\ pc[self] = "gsw2"
               /\ IF ~gdone[self]
@@ -742,10 +759,11 @@ gsw2(self) == /\ pc[self] = "gsw2"
               /\ pc' = [pc EXCEPT ![self] = "gsc"]
               /\ UNCHANGED << code, kstop, ksig, rip, sstep, intr, hpend, inh, 
                               adv, iter, pend, shpend, sent, deliv, taken, 
-                              prom, nsend, lost, badrecv, tstate, guard, focus, 
-                              sigq, ncmd, atPrompt, dead, phase, ret, retpid, 
-                              retsig, round, hist, stack, initiator, gtodo, gt, 
-                              gdone, gabort, st, stid, ctodo, inj, cmd >>
+                              prom, nsend, lost, badrecv, fam, famwho, tstate, 
+                              guard, focus, sigq, ncmd, atPrompt, dead, phase, 
+                              ret, retpid, retsig, round, hist, stack, 
+                              initiator, gtodo, gt, gdone, gabort, st, stid, 
+                              ctodo, inj, cmd >>
 
 gse(self) == /\ pc[self] = "gse"
              /\ IF tstate[gt[self]] = "running"
@@ -755,22 +773,22 @@ gse(self) == /\ pc[self] = "gse"
              /\ pc' = [pc EXCEPT ![self] = "gsl"]
              /\ UNCHANGED << code, kst, kstop, ksig, unrep, rip, sstep, intr, 
                              hpend, inh, adv, iter, pend, shpend, sent, deliv, 
-                             taken, prom, nsend, lost, badrecv, guard, focus, 
-                             sigq, ncmd, atPrompt, dead, phase, wst, ret, 
-                             retpid, retsig, round, hist, nsys, lastsys, stack, 
-                             initiator, gtodo, gt, gdone, gabort, st, stid, 
-                             ctodo, inj, cmd >>
+                             taken, prom, nsend, lost, badrecv, fam, famwho, 
+                             guard, focus, sigq, ncmd, atPrompt, dead, phase, 
+                             wst, ret, retpid, retsig, round, hist, nsys, 
+                             lastsys, stack, initiator, gtodo, gt, gdone, 
+                             gabort, st, stid, ctodo, inj, cmd >>
 
 gsn(self) == /\ pc[self] = "gsn"
              /\ round' = round + 1
              /\ pc' = [pc EXCEPT ![self] = "gsr"]
              /\ UNCHANGED << code, kst, kstop, ksig, unrep, rip, sstep, intr, 
                              hpend, inh, adv, iter, pend, shpend, sent, deliv, 
-                             taken, prom, nsend, lost, badrecv, tstate, guard, 
-                             focus, sigq, ncmd, atPrompt, dead, phase, wst, 
-                             ret, retpid, retsig, hist, nsys, lastsys, stack, 
-                             initiator, gtodo, gt, gdone, gabort, st, stid, 
-                             ctodo, inj, cmd >>
+                             taken, prom, nsend, lost, badrecv, fam, famwho, 
+                             tstate, guard, focus, sigq, ncmd, atPrompt, dead, 
+                             phase, wst, ret, retpid, retsig, hist, nsys, 
+                             lastsys, stack, initiator, gtodo, gt, gdone, 
+                             gabort, st, stid, ctodo, inj, cmd >>
 
 gsx(self) == /\ pc[self] = "gsx"
              /\ guard' = FALSE
@@ -783,10 +801,10 @@ gsx(self) == /\ pc[self] = "gsx"
              /\ stack' = [stack EXCEPT ![self] = Tail(stack[self])]
              /\ UNCHANGED << code, kst, kstop, ksig, unrep, rip, sstep, intr, 
                              hpend, inh, adv, iter, pend, shpend, sent, deliv, 
-                             taken, prom, nsend, lost, badrecv, tstate, focus, 
-                             sigq, ncmd, atPrompt, dead, phase, wst, ret, 
-                             retpid, retsig, round, hist, nsys, lastsys, st, 
-                             stid, ctodo, inj, cmd >>
+                             taken, prom, nsend, lost, badrecv, fam, famwho, 
+                             tstate, focus, sigq, ncmd, atPrompt, dead, phase, 
+                             wst, ret, retpid, retsig, round, hist, nsys, 
+                             lastsys, st, stid, ctodo, inj, cmd >>
 
 group_stop(self) == gs0(self) \/ gs1(self) \/ gs1b(self) \/ gs2(self)
                        \/ gsr(self) \/ gsl(self) \/ gsk(self) \/ gsj(self)
@@ -800,11 +818,11 @@ ap0(self) == /\ pc[self] = "ap0"
              /\ pc' = [pc EXCEPT ![self] = "ap0b"]
              /\ UNCHANGED << code, kst, kstop, ksig, unrep, rip, sstep, intr, 
                              hpend, inh, adv, iter, pend, shpend, sent, deliv, 
-                             taken, prom, nsend, lost, badrecv, tstate, guard, 
-                             focus, sigq, ncmd, atPrompt, dead, phase, wst, 
-                             round, hist, nsys, lastsys, stack, initiator, 
-                             gtodo, gt, gdone, gabort, st, stid, ctodo, inj, 
-                             cmd >>
+                             taken, prom, nsend, lost, badrecv, fam, famwho, 
+                             tstate, guard, focus, sigq, ncmd, atPrompt, dead, 
+                             phase, wst, round, hist, nsys, lastsys, stack, 
+                             initiator, gtodo, gt, gdone, gabort, st, stid, 
+                             ctodo, inj, cmd >>
 
 ap0b(self) == /\ pc[self] = "ap0b"
               /\ IF st[self].kind = "exited"
@@ -850,10 +868,11 @@ ap0b(self) == /\ pc[self] = "ap0b"
                          /\ ret' = ret
               /\ UNCHANGED << code, kst, kstop, ksig, unrep, rip, sstep, intr, 
                               hpend, inh, adv, iter, pend, shpend, sent, deliv, 
-                              taken, prom, nsend, lost, badrecv, guard, focus, 
-                              ncmd, atPrompt, dead, phase, wst, retpid, retsig, 
-                              round, hist, nsys, lastsys, initiator, gtodo, gt, 
-                              gdone, gabort, stid, ctodo, inj, cmd >>
+                              taken, prom, nsend, lost, badrecv, fam, famwho, 
+                              guard, focus, ncmd, atPrompt, dead, phase, wst, 
+                              retpid, retsig, round, hist, nsys, lastsys, 
+                              initiator, gtodo, gt, gdone, gabort, stid, ctodo, 
+                              inj, cmd >>
 
 ap1(self) == /\ pc[self] = "ap1"
              /\ IF kst[(st[self].pid)] = "stopped"
@@ -887,11 +906,11 @@ ap1(self) == /\ pc[self] = "ap1"
                 /\ nsys' = [nsys EXCEPT ![IF FALSE THEN "step" ELSE "cont"] = nsys[IF FALSE THEN "step" ELSE "cont"] + 1]
              /\ pc' = [pc EXCEPT ![self] = "apr"]
              /\ UNCHANGED << code, rip, intr, inh, iter, pend, shpend, sent, 
-                             taken, prom, nsend, badrecv, tstate, guard, focus, 
-                             sigq, ncmd, atPrompt, dead, phase, wst, ret, 
-                             retpid, retsig, round, hist, stack, initiator, 
-                             gtodo, gt, gdone, gabort, st, stid, ctodo, inj, 
-                             cmd >>
+                             taken, prom, nsend, badrecv, fam, famwho, tstate, 
+                             guard, focus, sigq, ncmd, atPrompt, dead, phase, 
+                             wst, ret, retpid, retsig, round, hist, stack, 
+                             initiator, gtodo, gt, gdone, gabort, st, stid, 
+                             ctodo, inj, cmd >>
 
 apr(self) == /\ pc[self] = "apr"
              /\ pc' = [pc EXCEPT ![self] = Head(stack[self]).pc]
@@ -899,11 +918,11 @@ apr(self) == /\ pc[self] = "apr"
              /\ stack' = [stack EXCEPT ![self] = Tail(stack[self])]
              /\ UNCHANGED << code, kst, kstop, ksig, unrep, rip, sstep, intr, 
                              hpend, inh, adv, iter, pend, shpend, sent, deliv, 
-                             taken, prom, nsend, lost, badrecv, tstate, guard, 
-                             focus, sigq, ncmd, atPrompt, dead, phase, wst, 
-                             ret, retpid, retsig, round, hist, nsys, lastsys, 
-                             initiator, gtodo, gt, gdone, gabort, stid, ctodo, 
-                             inj, cmd >>
+                             taken, prom, nsend, lost, badrecv, fam, famwho, 
+                             tstate, guard, focus, sigq, ncmd, atPrompt, dead, 
+                             phase, wst, ret, retpid, retsig, round, hist, 
+                             nsys, lastsys, initiator, gtodo, gt, gdone, 
+                             gabort, stid, ctodo, inj, cmd >>
 
 ap3(self) == /\ pc[self] = "ap3"
              /\ IF ~code
@@ -914,11 +933,11 @@ ap3(self) == /\ pc[self] = "ap3"
                         /\ UNCHANGED << stack, st >>
              /\ UNCHANGED << code, kst, kstop, ksig, unrep, rip, sstep, intr, 
                              hpend, inh, adv, iter, pend, shpend, sent, deliv, 
-                             taken, prom, nsend, lost, badrecv, tstate, guard, 
-                             focus, sigq, ncmd, atPrompt, dead, phase, wst, 
-                             ret, retpid, retsig, round, hist, nsys, lastsys, 
-                             initiator, gtodo, gt, gdone, gabort, stid, ctodo, 
-                             inj, cmd >>
+                             taken, prom, nsend, lost, badrecv, fam, famwho, 
+                             tstate, guard, focus, sigq, ncmd, atPrompt, dead, 
+                             phase, wst, ret, retpid, retsig, round, hist, 
+                             nsys, lastsys, initiator, gtodo, gt, gdone, 
+                             gabort, stid, ctodo, inj, cmd >>
 
 ap4(self) == /\ pc[self] = "ap4"
              /\ tstate' = [tstate EXCEPT ![st[self].pid] = "stopped"]
@@ -938,10 +957,10 @@ ap4(self) == /\ pc[self] = "ap4"
              /\ pc' = [pc EXCEPT ![self] = "gs0"]
              /\ UNCHANGED << code, kst, kstop, ksig, unrep, rip, sstep, intr, 
                              hpend, inh, adv, iter, pend, shpend, sent, deliv, 
-                             taken, prom, nsend, lost, badrecv, guard, focus, 
-                             sigq, ncmd, atPrompt, dead, phase, wst, ret, 
-                             retpid, retsig, round, hist, nsys, lastsys, st, 
-                             stid, ctodo, inj, cmd >>
+                             taken, prom, nsend, lost, badrecv, fam, famwho, 
+                             guard, focus, sigq, ncmd, atPrompt, dead, phase, 
+                             wst, ret, retpid, retsig, round, hist, nsys, 
+                             lastsys, st, stid, ctodo, inj, cmd >>
 
 ap5(self) == /\ pc[self] = "ap5"
              /\ ret' = "brkpt"
@@ -951,10 +970,11 @@ ap5(self) == /\ pc[self] = "ap5"
              /\ stack' = [stack EXCEPT ![self] = Tail(stack[self])]
              /\ UNCHANGED << code, kst, kstop, ksig, unrep, rip, sstep, intr, 
                              hpend, inh, adv, iter, pend, shpend, sent, deliv, 
-                             taken, prom, nsend, lost, badrecv, tstate, guard, 
-                             focus, sigq, ncmd, atPrompt, dead, phase, wst, 
-                             retsig, round, hist, nsys, lastsys, initiator, 
-                             gtodo, gt, gdone, gabort, stid, ctodo, inj, cmd >>
+                             taken, prom, nsend, lost, badrecv, fam, famwho, 
+                             tstate, guard, focus, sigq, ncmd, atPrompt, dead, 
+                             phase, wst, retsig, round, hist, nsys, lastsys, 
+                             initiator, gtodo, gt, gdone, gabort, stid, ctodo, 
+                             inj, cmd >>
 
 aps(self) == /\ pc[self] = "aps"
              /\ IF st[self].sig \notin Quiet
@@ -977,10 +997,10 @@ aps(self) == /\ pc[self] = "aps"
                                         gabort >>
              /\ UNCHANGED << code, kst, kstop, ksig, unrep, rip, sstep, intr, 
                              hpend, inh, adv, iter, pend, shpend, sent, deliv, 
-                             taken, prom, nsend, lost, badrecv, tstate, guard, 
-                             focus, sigq, ncmd, atPrompt, dead, phase, wst, 
-                             ret, retpid, retsig, round, hist, nsys, lastsys, 
-                             st, stid, ctodo, inj, cmd >>
+                             taken, prom, nsend, lost, badrecv, fam, famwho, 
+                             tstate, guard, focus, sigq, ncmd, atPrompt, dead, 
+                             phase, wst, ret, retpid, retsig, round, hist, 
+                             nsys, lastsys, st, stid, ctodo, inj, cmd >>
 
 apt(self) == /\ pc[self] = "apt"
              /\ ret' = "signal"
@@ -991,10 +1011,10 @@ apt(self) == /\ pc[self] = "apt"
              /\ stack' = [stack EXCEPT ![self] = Tail(stack[self])]
              /\ UNCHANGED << code, kst, kstop, ksig, unrep, rip, sstep, intr, 
                              hpend, inh, adv, iter, pend, shpend, sent, deliv, 
-                             taken, prom, nsend, lost, badrecv, tstate, guard, 
-                             focus, sigq, ncmd, atPrompt, dead, phase, wst, 
-                             round, hist, nsys, lastsys, initiator, gtodo, gt, 
-                             gdone, gabort, stid, ctodo, inj, cmd >>
+                             taken, prom, nsend, lost, badrecv, fam, famwho, 
+                             tstate, guard, focus, sigq, ncmd, atPrompt, dead, 
+                             phase, wst, round, hist, nsys, lastsys, initiator, 
+                             gtodo, gt, gdone, gabort, stid, ctodo, inj, cmd >>
 
 apply(self) == ap0(self) \/ ap0b(self) \/ ap1(self) \/ apr(self)
                   \/ ap3(self) \/ ap4(self) \/ ap5(self) \/ aps(self)
@@ -1032,11 +1052,11 @@ ss0(self) == /\ pc[self] = "ss0"
                 /\ nsys' = [nsys EXCEPT ![IF TRUE THEN "step" ELSE "cont"] = nsys[IF TRUE THEN "step" ELSE "cont"] + 1]
              /\ pc' = [pc EXCEPT ![self] = "ss1"]
              /\ UNCHANGED << code, rip, intr, inh, iter, pend, shpend, sent, 
-                             taken, prom, nsend, badrecv, tstate, guard, focus, 
-                             sigq, ncmd, atPrompt, dead, phase, wst, ret, 
-                             retpid, retsig, round, hist, stack, initiator, 
-                             gtodo, gt, gdone, gabort, st, stid, ctodo, inj, 
-                             cmd >>
+                             taken, prom, nsend, badrecv, fam, famwho, tstate, 
+                             guard, focus, sigq, ncmd, atPrompt, dead, phase, 
+                             wst, ret, retpid, retsig, round, hist, stack, 
+                             initiator, gtodo, gt, gdone, gabort, st, stid, 
+                             ctodo, inj, cmd >>
 
 ss1(self) == /\ pc[self] = "ss1"
              /\ \E t \in Threads : (stid[self] = None \/ stid[self] = t) /\ Reportable(t)
@@ -1052,10 +1072,11 @@ ss1(self) == /\ pc[self] = "ss1"
              /\ pc' = [pc EXCEPT ![self] = "ss2"]
              /\ UNCHANGED << code, kstop, ksig, rip, sstep, intr, hpend, inh, 
                              adv, iter, pend, shpend, sent, deliv, taken, prom, 
-                             nsend, lost, badrecv, tstate, guard, focus, sigq, 
-                             ncmd, atPrompt, dead, phase, ret, retpid, retsig, 
-                             round, hist, stack, initiator, gtodo, gt, gdone, 
-                             gabort, st, stid, ctodo, inj, cmd >>
+                             nsend, lost, badrecv, fam, famwho, tstate, guard, 
+                             focus, sigq, ncmd, atPrompt, dead, phase, ret, 
+                             retpid, retsig, round, hist, stack, initiator, 
+                             gtodo, gt, gdone, gabort, st, stid, ctodo, inj, 
+                             cmd >>
 
 ss2(self) == /\ pc[self] = "ss2"
              /\ IF wst.kind \in {"trap_step", "trap_brkpt"}
@@ -1085,11 +1106,11 @@ ss2(self) == /\ pc[self] = "ss2"
                                    /\ UNCHANGED << ret, stid >>
              /\ UNCHANGED << code, kst, kstop, ksig, unrep, rip, sstep, intr, 
                              hpend, inh, adv, iter, pend, shpend, sent, deliv, 
-                             taken, prom, nsend, lost, badrecv, tstate, guard, 
-                             focus, sigq, ncmd, atPrompt, dead, phase, wst, 
-                             retpid, retsig, round, hist, nsys, lastsys, 
-                             initiator, gtodo, gt, gdone, gabort, ctodo, inj, 
-                             cmd >>
+                             taken, prom, nsend, lost, badrecv, fam, famwho, 
+                             tstate, guard, focus, sigq, ncmd, atPrompt, dead, 
+                             phase, wst, retpid, retsig, round, hist, nsys, 
+                             lastsys, initiator, gtodo, gt, gdone, gabort, 
+                             ctodo, inj, cmd >>
 
 ss2a(self) == /\ pc[self] = "ss2a"
               /\ IF kst[stid[self]] = "stopped"
@@ -1123,9 +1144,9 @@ ss2a(self) == /\ pc[self] = "ss2a"
                  /\ nsys' = [nsys EXCEPT ![IF TRUE THEN "step" ELSE "cont"] = nsys[IF TRUE THEN "step" ELSE "cont"] + 1]
               /\ pc' = [pc EXCEPT ![self] = "ss1"]
               /\ UNCHANGED << code, rip, intr, inh, iter, pend, shpend, sent, 
-                              taken, prom, nsend, badrecv, tstate, guard, 
-                              focus, sigq, ncmd, atPrompt, dead, phase, wst, 
-                              ret, retpid, retsig, round, hist, stack, 
+                              taken, prom, nsend, badrecv, fam, famwho, tstate, 
+                              guard, focus, sigq, ncmd, atPrompt, dead, phase, 
+                              wst, ret, retpid, retsig, round, hist, stack, 
                               initiator, gtodo, gt, gdone, gabort, st, stid, 
                               ctodo, inj, cmd >>
 
@@ -1161,9 +1182,9 @@ ss2b(self) == /\ pc[self] = "ss2b"
                  /\ nsys' = [nsys EXCEPT ![IF TRUE THEN "step" ELSE "cont"] = nsys[IF TRUE THEN "step" ELSE "cont"] + 1]
               /\ pc' = [pc EXCEPT ![self] = "ss1"]
               /\ UNCHANGED << code, rip, intr, inh, iter, pend, shpend, sent, 
-                              taken, prom, nsend, badrecv, tstate, guard, 
-                              focus, sigq, ncmd, atPrompt, dead, phase, wst, 
-                              ret, retpid, retsig, round, hist, stack, 
+                              taken, prom, nsend, badrecv, fam, famwho, tstate, 
+                              guard, focus, sigq, ncmd, atPrompt, dead, phase, 
+                              wst, ret, retpid, retsig, round, hist, stack, 
                               initiator, gtodo, gt, gdone, gabort, st, stid, 
                               ctodo, inj, cmd >>
 
@@ -1186,11 +1207,11 @@ ss3(self) == /\ pc[self] = "ss3"
                                                               stid >>
              /\ UNCHANGED << code, kst, kstop, ksig, unrep, rip, sstep, intr, 
                              hpend, inh, adv, iter, pend, shpend, sent, deliv, 
-                             taken, prom, nsend, lost, badrecv, tstate, guard, 
-                             focus, sigq, ncmd, atPrompt, phase, wst, ret, 
-                             retpid, retsig, round, hist, nsys, lastsys, 
-                             initiator, gtodo, gt, gdone, gabort, st, ctodo, 
-                             inj, cmd >>
+                             taken, prom, nsend, lost, badrecv, fam, famwho, 
+                             tstate, guard, focus, sigq, ncmd, atPrompt, phase, 
+                             wst, ret, retpid, retsig, round, hist, nsys, 
+                             lastsys, initiator, gtodo, gt, gdone, gabort, st, 
+                             ctodo, inj, cmd >>
 
 ss4(self) == /\ pc[self] = "ss4"
              /\ IF kst[stid[self]] = "stopped"
@@ -1228,10 +1249,11 @@ ss4(self) == /\ pc[self] = "ss4"
                         /\ sigq' = sigq
              /\ pc' = [pc EXCEPT ![self] = "ss1"]
              /\ UNCHANGED << code, rip, intr, inh, iter, pend, shpend, sent, 
-                             taken, prom, nsend, badrecv, tstate, guard, focus, 
-                             ncmd, atPrompt, dead, phase, wst, ret, retpid, 
-                             retsig, round, hist, stack, initiator, gtodo, gt, 
-                             gdone, gabort, st, stid, ctodo, inj, cmd >>
+                             taken, prom, nsend, badrecv, fam, famwho, tstate, 
+                             guard, focus, ncmd, atPrompt, dead, phase, wst, 
+                             ret, retpid, retsig, round, hist, stack, 
+                             initiator, gtodo, gt, gdone, gabort, st, stid, 
+                             ctodo, inj, cmd >>
 
 single_step(self) == ss0(self) \/ ss1(self) \/ ss2(self) \/ ss2a(self)
                         \/ ss2b(self) \/ ss3(self) \/ ss4(self)
@@ -1270,9 +1292,10 @@ rs0(self) == /\ pc[self] = "rs0"
                                         gabort >>
              /\ UNCHANGED << code, kst, kstop, ksig, unrep, rip, sstep, intr, 
                              hpend, inh, adv, iter, pend, shpend, sent, deliv, 
-                             taken, prom, nsend, badrecv, tstate, guard, focus, 
-                             ncmd, atPrompt, dead, phase, wst, ret, retpid, 
-                             retsig, round, hist, nsys, lastsys, st, stid, cmd >>
+                             taken, prom, nsend, badrecv, fam, famwho, tstate, 
+                             guard, focus, ncmd, atPrompt, dead, phase, wst, 
+                             ret, retpid, retsig, round, hist, nsys, lastsys, 
+                             st, stid, cmd >>
 
 rs1(self) == /\ pc[self] = "rs1"
              /\ IF ctodo[self] # {}
@@ -1317,10 +1340,11 @@ rs1(self) == /\ pc[self] = "rs1"
                                         adv, deliv, lost, tstate, nsys, 
                                         lastsys, ctodo >>
              /\ UNCHANGED << code, rip, intr, inh, iter, pend, shpend, sent, 
-                             taken, prom, nsend, badrecv, guard, focus, sigq, 
-                             ncmd, atPrompt, dead, phase, wst, ret, retpid, 
-                             retsig, round, hist, stack, initiator, gtodo, gt, 
-                             gdone, gabort, st, stid, inj, cmd >>
+                             taken, prom, nsend, badrecv, fam, famwho, guard, 
+                             focus, sigq, ncmd, atPrompt, dead, phase, wst, 
+                             ret, retpid, retsig, round, hist, stack, 
+                             initiator, gtodo, gt, gdone, gabort, st, stid, 
+                             inj, cmd >>
 
 rsq(self) == /\ pc[self] = "rsq"
              /\ IF inj[self] # <<>> /\ sigq # <<>>
@@ -1343,10 +1367,10 @@ rsq(self) == /\ pc[self] = "rsq"
                                         gabort >>
              /\ UNCHANGED << code, kst, kstop, ksig, unrep, rip, sstep, intr, 
                              hpend, inh, adv, iter, pend, shpend, sent, deliv, 
-                             taken, prom, nsend, lost, badrecv, tstate, guard, 
-                             focus, sigq, ncmd, atPrompt, dead, phase, wst, 
-                             ret, retpid, retsig, round, hist, nsys, lastsys, 
-                             st, stid, ctodo, inj, cmd >>
+                             taken, prom, nsend, lost, badrecv, fam, famwho, 
+                             tstate, guard, focus, sigq, ncmd, atPrompt, dead, 
+                             phase, wst, ret, retpid, retsig, round, hist, 
+                             nsys, lastsys, st, stid, ctodo, inj, cmd >>
 
 rsr(self) == /\ pc[self] = "rsr"
              /\ IF (FixQuietFront /\ Head(sigq)[2] \in Quiet) \/ (FixSwallow /\ Head(sigq)[3])
@@ -1361,10 +1385,10 @@ rsr(self) == /\ pc[self] = "rsr"
                         /\ stack' = [stack EXCEPT ![self] = Tail(stack[self])]
              /\ UNCHANGED << code, kst, kstop, ksig, unrep, rip, sstep, intr, 
                              hpend, inh, adv, iter, pend, shpend, sent, deliv, 
-                             taken, prom, nsend, lost, badrecv, tstate, guard, 
-                             focus, sigq, ncmd, atPrompt, dead, phase, wst, 
-                             round, hist, nsys, lastsys, initiator, gtodo, gt, 
-                             gdone, gabort, st, stid, cmd >>
+                             taken, prom, nsend, lost, badrecv, fam, famwho, 
+                             tstate, guard, focus, sigq, ncmd, atPrompt, dead, 
+                             phase, wst, round, hist, nsys, lastsys, initiator, 
+                             gtodo, gt, gdone, gabort, st, stid, cmd >>
 
 rs2(self) == /\ pc[self] = "rs2"
              /\ \E t \in Threads : (None = None \/ None = t) /\ Reportable(t)
@@ -1380,10 +1404,11 @@ rs2(self) == /\ pc[self] = "rs2"
              /\ pc' = [pc EXCEPT ![self] = "rs3"]
              /\ UNCHANGED << code, kstop, ksig, rip, sstep, intr, hpend, inh, 
                              adv, iter, pend, shpend, sent, deliv, taken, prom, 
-                             nsend, lost, badrecv, tstate, guard, focus, sigq, 
-                             ncmd, atPrompt, dead, phase, ret, retpid, retsig, 
-                             round, hist, stack, initiator, gtodo, gt, gdone, 
-                             gabort, st, stid, ctodo, inj, cmd >>
+                             nsend, lost, badrecv, fam, famwho, tstate, guard, 
+                             focus, sigq, ncmd, atPrompt, dead, phase, ret, 
+                             retpid, retsig, round, hist, stack, initiator, 
+                             gtodo, gt, gdone, gabort, st, stid, ctodo, inj, 
+                             cmd >>
 
 rs3(self) == /\ pc[self] = "rs3"
              /\ /\ st' = [st EXCEPT ![self] = wst]
@@ -1394,11 +1419,11 @@ rs3(self) == /\ pc[self] = "rs3"
              /\ pc' = [pc EXCEPT ![self] = "ap0"]
              /\ UNCHANGED << code, kst, kstop, ksig, unrep, rip, sstep, intr, 
                              hpend, inh, adv, iter, pend, shpend, sent, deliv, 
-                             taken, prom, nsend, lost, badrecv, tstate, guard, 
-                             focus, sigq, ncmd, atPrompt, dead, phase, wst, 
-                             ret, retpid, retsig, round, hist, nsys, lastsys, 
-                             initiator, gtodo, gt, gdone, gabort, stid, ctodo, 
-                             inj, cmd >>
+                             taken, prom, nsend, lost, badrecv, fam, famwho, 
+                             tstate, guard, focus, sigq, ncmd, atPrompt, dead, 
+                             phase, wst, ret, retpid, retsig, round, hist, 
+                             nsys, lastsys, initiator, gtodo, gt, gdone, 
+                             gabort, stid, ctodo, inj, cmd >>
 
 rs4(self) == /\ pc[self] = "rs4"
              /\ IF ret = "signal" /\ retsig \in Quiet
@@ -1414,11 +1439,11 @@ rs4(self) == /\ pc[self] = "rs4"
                                    /\ UNCHANGED << stack, ctodo, inj >>
              /\ UNCHANGED << code, kst, kstop, ksig, unrep, rip, sstep, intr, 
                              hpend, inh, adv, iter, pend, shpend, sent, deliv, 
-                             taken, prom, nsend, lost, badrecv, tstate, guard, 
-                             focus, sigq, ncmd, atPrompt, dead, phase, wst, 
-                             ret, retpid, retsig, round, hist, nsys, lastsys, 
-                             initiator, gtodo, gt, gdone, gabort, st, stid, 
-                             cmd >>
+                             taken, prom, nsend, lost, badrecv, fam, famwho, 
+                             tstate, guard, focus, sigq, ncmd, atPrompt, dead, 
+                             phase, wst, ret, retpid, retsig, round, hist, 
+                             nsys, lastsys, initiator, gtodo, gt, gdone, 
+                             gabort, st, stid, cmd >>
 
 rsw(self) == /\ pc[self] = "rsw"
              /\ ret' = "signal"
@@ -1430,10 +1455,10 @@ rsw(self) == /\ pc[self] = "rsw"
              /\ stack' = [stack EXCEPT ![self] = Tail(stack[self])]
              /\ UNCHANGED << code, kst, kstop, ksig, unrep, rip, sstep, intr, 
                              hpend, inh, adv, iter, pend, shpend, sent, deliv, 
-                             taken, prom, nsend, lost, badrecv, tstate, guard, 
-                             focus, sigq, ncmd, atPrompt, dead, phase, wst, 
-                             round, hist, nsys, lastsys, initiator, gtodo, gt, 
-                             gdone, gabort, st, stid, cmd >>
+                             taken, prom, nsend, lost, badrecv, fam, famwho, 
+                             tstate, guard, focus, sigq, ncmd, atPrompt, dead, 
+                             phase, wst, round, hist, nsys, lastsys, initiator, 
+                             gtodo, gt, gdone, gabort, st, stid, cmd >>
 
 resume(self) == rs0(self) \/ rs1(self) \/ rsq(self) \/ rsr(self)
                    \/ rs2(self) \/ rs3(self) \/ rs4(self) \/ rsw(self)
@@ -1445,22 +1470,22 @@ sb0(self) == /\ pc[self] = "sb0"
                    ELSE /\ pc' = [pc EXCEPT ![self] = "sb4"]
              /\ UNCHANGED << code, kst, kstop, ksig, unrep, rip, sstep, intr, 
                              hpend, inh, adv, iter, pend, shpend, sent, deliv, 
-                             taken, prom, nsend, lost, badrecv, tstate, guard, 
-                             focus, sigq, ncmd, atPrompt, dead, phase, wst, 
-                             retpid, retsig, round, hist, nsys, lastsys, stack, 
-                             initiator, gtodo, gt, gdone, gabort, st, stid, 
-                             ctodo, inj, cmd >>
+                             taken, prom, nsend, lost, badrecv, fam, famwho, 
+                             tstate, guard, focus, sigq, ncmd, atPrompt, dead, 
+                             phase, wst, retpid, retsig, round, hist, nsys, 
+                             lastsys, stack, initiator, gtodo, gt, gdone, 
+                             gabort, st, stid, ctodo, inj, cmd >>
 
 sb1(self) == /\ pc[self] = "sb1"
              /\ code' = FALSE
              /\ pc' = [pc EXCEPT ![self] = "sb2"]
              /\ UNCHANGED << kst, kstop, ksig, unrep, rip, sstep, intr, hpend, 
                              inh, adv, iter, pend, shpend, sent, deliv, taken, 
-                             prom, nsend, lost, badrecv, tstate, guard, focus, 
-                             sigq, ncmd, atPrompt, dead, phase, wst, ret, 
-                             retpid, retsig, round, hist, nsys, lastsys, stack, 
-                             initiator, gtodo, gt, gdone, gabort, st, stid, 
-                             ctodo, inj, cmd >>
+                             prom, nsend, lost, badrecv, fam, famwho, tstate, 
+                             guard, focus, sigq, ncmd, atPrompt, dead, phase, 
+                             wst, ret, retpid, retsig, round, hist, nsys, 
+                             lastsys, stack, initiator, gtodo, gt, gdone, 
+                             gabort, st, stid, ctodo, inj, cmd >>
 
 sb2(self) == /\ pc[self] = "sb2"
              /\ /\ stack' = [stack EXCEPT ![self] = << [ procedure |->  "single_step",
@@ -1471,33 +1496,33 @@ sb2(self) == /\ pc[self] = "sb2"
              /\ pc' = [pc EXCEPT ![self] = "ss0"]
              /\ UNCHANGED << code, kst, kstop, ksig, unrep, rip, sstep, intr, 
                              hpend, inh, adv, iter, pend, shpend, sent, deliv, 
-                             taken, prom, nsend, lost, badrecv, tstate, guard, 
-                             focus, sigq, ncmd, atPrompt, dead, phase, wst, 
-                             ret, retpid, retsig, round, hist, nsys, lastsys, 
-                             initiator, gtodo, gt, gdone, gabort, st, ctodo, 
-                             inj, cmd >>
+                             taken, prom, nsend, lost, badrecv, fam, famwho, 
+                             tstate, guard, focus, sigq, ncmd, atPrompt, dead, 
+                             phase, wst, ret, retpid, retsig, round, hist, 
+                             nsys, lastsys, initiator, gtodo, gt, gdone, 
+                             gabort, st, ctodo, inj, cmd >>
 
 sb3(self) == /\ pc[self] = "sb3"
              /\ code' = TRUE
              /\ pc' = [pc EXCEPT ![self] = "sb4"]
              /\ UNCHANGED << kst, kstop, ksig, unrep, rip, sstep, intr, hpend, 
                              inh, adv, iter, pend, shpend, sent, deliv, taken, 
-                             prom, nsend, lost, badrecv, tstate, guard, focus, 
-                             sigq, ncmd, atPrompt, dead, phase, wst, ret, 
-                             retpid, retsig, round, hist, nsys, lastsys, stack, 
-                             initiator, gtodo, gt, gdone, gabort, st, stid, 
-                             ctodo, inj, cmd >>
+                             prom, nsend, lost, badrecv, fam, famwho, tstate, 
+                             guard, focus, sigq, ncmd, atPrompt, dead, phase, 
+                             wst, ret, retpid, retsig, round, hist, nsys, 
+                             lastsys, stack, initiator, gtodo, gt, gdone, 
+                             gabort, st, stid, ctodo, inj, cmd >>
 
 sb4(self) == /\ pc[self] = "sb4"
              /\ pc' = [pc EXCEPT ![self] = Head(stack[self]).pc]
              /\ stack' = [stack EXCEPT ![self] = Tail(stack[self])]
              /\ UNCHANGED << code, kst, kstop, ksig, unrep, rip, sstep, intr, 
                              hpend, inh, adv, iter, pend, shpend, sent, deliv, 
-                             taken, prom, nsend, lost, badrecv, tstate, guard, 
-                             focus, sigq, ncmd, atPrompt, dead, phase, wst, 
-                             ret, retpid, retsig, round, hist, nsys, lastsys, 
-                             initiator, gtodo, gt, gdone, gabort, st, stid, 
-                             ctodo, inj, cmd >>
+                             taken, prom, nsend, lost, badrecv, fam, famwho, 
+                             tstate, guard, focus, sigq, ncmd, atPrompt, dead, 
+                             phase, wst, ret, retpid, retsig, round, hist, 
+                             nsys, lastsys, initiator, gtodo, gt, gdone, 
+                             gabort, st, stid, ctodo, inj, cmd >>
 
 step_over_breakpoint(self) == sb0(self) \/ sb1(self) \/ sb2(self)
                                  \/ sb3(self) \/ sb4(self)
@@ -1517,22 +1542,22 @@ sn0(self) == /\ pc[self] = "sn0"
                         /\ pc' = [pc EXCEPT ![self] = "ss0"]
              /\ UNCHANGED << code, kst, kstop, ksig, unrep, rip, sstep, intr, 
                              hpend, inh, adv, iter, pend, shpend, sent, deliv, 
-                             taken, prom, nsend, lost, badrecv, tstate, guard, 
-                             focus, sigq, ncmd, atPrompt, dead, phase, wst, 
-                             ret, retpid, retsig, round, hist, nsys, lastsys, 
-                             initiator, gtodo, gt, gdone, gabort, st, ctodo, 
-                             inj, cmd >>
+                             taken, prom, nsend, lost, badrecv, fam, famwho, 
+                             tstate, guard, focus, sigq, ncmd, atPrompt, dead, 
+                             phase, wst, ret, retpid, retsig, round, hist, 
+                             nsys, lastsys, initiator, gtodo, gt, gdone, 
+                             gabort, st, ctodo, inj, cmd >>
 
 sn1(self) == /\ pc[self] = "sn1"
              /\ pc' = [pc EXCEPT ![self] = Head(stack[self]).pc]
              /\ stack' = [stack EXCEPT ![self] = Tail(stack[self])]
              /\ UNCHANGED << code, kst, kstop, ksig, unrep, rip, sstep, intr, 
                              hpend, inh, adv, iter, pend, shpend, sent, deliv, 
-                             taken, prom, nsend, lost, badrecv, tstate, guard, 
-                             focus, sigq, ncmd, atPrompt, dead, phase, wst, 
-                             ret, retpid, retsig, round, hist, nsys, lastsys, 
-                             initiator, gtodo, gt, gdone, gabort, st, stid, 
-                             ctodo, inj, cmd >>
+                             taken, prom, nsend, lost, badrecv, fam, famwho, 
+                             tstate, guard, focus, sigq, ncmd, atPrompt, dead, 
+                             phase, wst, ret, retpid, retsig, round, hist, 
+                             nsys, lastsys, initiator, gtodo, gt, gdone, 
+                             gabort, st, stid, ctodo, inj, cmd >>
 
 step_insn(self) == sn0(self) \/ sn1(self)
 
@@ -1543,11 +1568,11 @@ ce0(self) == /\ pc[self] = "ce0"
              /\ pc' = [pc EXCEPT ![self] = "sb0"]
              /\ UNCHANGED << code, kst, kstop, ksig, unrep, rip, sstep, intr, 
                              hpend, inh, adv, iter, pend, shpend, sent, deliv, 
-                             taken, prom, nsend, lost, badrecv, tstate, guard, 
-                             focus, sigq, ncmd, atPrompt, dead, phase, wst, 
-                             ret, retpid, retsig, round, hist, nsys, lastsys, 
-                             initiator, gtodo, gt, gdone, gabort, st, stid, 
-                             ctodo, inj, cmd >>
+                             taken, prom, nsend, lost, badrecv, fam, famwho, 
+                             tstate, guard, focus, sigq, ncmd, atPrompt, dead, 
+                             phase, wst, ret, retpid, retsig, round, hist, 
+                             nsys, lastsys, initiator, gtodo, gt, gdone, 
+                             gabort, st, stid, ctodo, inj, cmd >>
 
 ce1(self) == /\ pc[self] = "ce1"
              /\ IF ret = "signal" \/ dead
@@ -1557,11 +1582,11 @@ ce1(self) == /\ pc[self] = "ce1"
                         /\ stack' = stack
              /\ UNCHANGED << code, kst, kstop, ksig, unrep, rip, sstep, intr, 
                              hpend, inh, adv, iter, pend, shpend, sent, deliv, 
-                             taken, prom, nsend, lost, badrecv, tstate, guard, 
-                             focus, sigq, ncmd, atPrompt, dead, phase, wst, 
-                             ret, retpid, retsig, round, hist, nsys, lastsys, 
-                             initiator, gtodo, gt, gdone, gabort, st, stid, 
-                             ctodo, inj, cmd >>
+                             taken, prom, nsend, lost, badrecv, fam, famwho, 
+                             tstate, guard, focus, sigq, ncmd, atPrompt, dead, 
+                             phase, wst, ret, retpid, retsig, round, hist, 
+                             nsys, lastsys, initiator, gtodo, gt, gdone, 
+                             gabort, st, stid, ctodo, inj, cmd >>
 
 ce4(self) == /\ pc[self] = "ce4"
              /\ stack' = [stack EXCEPT ![self] = << [ procedure |->  "resume",
@@ -1574,11 +1599,11 @@ ce4(self) == /\ pc[self] = "ce4"
              /\ pc' = [pc EXCEPT ![self] = "rs0"]
              /\ UNCHANGED << code, kst, kstop, ksig, unrep, rip, sstep, intr, 
                              hpend, inh, adv, iter, pend, shpend, sent, deliv, 
-                             taken, prom, nsend, lost, badrecv, tstate, guard, 
-                             focus, sigq, ncmd, atPrompt, dead, phase, wst, 
-                             ret, retpid, retsig, round, hist, nsys, lastsys, 
-                             initiator, gtodo, gt, gdone, gabort, st, stid, 
-                             cmd >>
+                             taken, prom, nsend, lost, badrecv, fam, famwho, 
+                             tstate, guard, focus, sigq, ncmd, atPrompt, dead, 
+                             phase, wst, ret, retpid, retsig, round, hist, 
+                             nsys, lastsys, initiator, gtodo, gt, gdone, 
+                             gabort, st, stid, cmd >>
 
 ce5(self) == /\ pc[self] = "ce5"
              /\ IF ret \in {"brkpt", "signal"}
@@ -1589,11 +1614,11 @@ ce5(self) == /\ pc[self] = "ce5"
              /\ stack' = [stack EXCEPT ![self] = Tail(stack[self])]
              /\ UNCHANGED << code, kst, kstop, ksig, unrep, rip, sstep, intr, 
                              hpend, inh, adv, iter, pend, shpend, sent, deliv, 
-                             taken, prom, nsend, lost, badrecv, tstate, guard, 
-                             sigq, ncmd, atPrompt, dead, phase, wst, ret, 
-                             retpid, retsig, round, hist, nsys, lastsys, 
-                             initiator, gtodo, gt, gdone, gabort, st, stid, 
-                             ctodo, inj, cmd >>
+                             taken, prom, nsend, lost, badrecv, fam, famwho, 
+                             tstate, guard, sigq, ncmd, atPrompt, dead, phase, 
+                             wst, ret, retpid, retsig, round, hist, nsys, 
+                             lastsys, initiator, gtodo, gt, gdone, gabort, st, 
+                             stid, ctodo, inj, cmd >>
 
 continue_execution(self) == ce0(self) \/ ce1(self) \/ ce4(self)
                                \/ ce5(self)
@@ -1607,11 +1632,11 @@ si0(self) == /\ pc[self] = "si0"
                         /\ UNCHANGED << ret, stack >>
              /\ UNCHANGED << code, kst, kstop, ksig, unrep, rip, sstep, intr, 
                              hpend, inh, adv, iter, pend, shpend, sent, deliv, 
-                             taken, prom, nsend, lost, badrecv, tstate, guard, 
-                             focus, sigq, ncmd, atPrompt, dead, phase, wst, 
-                             retpid, retsig, round, hist, nsys, lastsys, 
-                             initiator, gtodo, gt, gdone, gabort, st, stid, 
-                             ctodo, inj, cmd >>
+                             taken, prom, nsend, lost, badrecv, fam, famwho, 
+                             tstate, guard, focus, sigq, ncmd, atPrompt, dead, 
+                             phase, wst, retpid, retsig, round, hist, nsys, 
+                             lastsys, initiator, gtodo, gt, gdone, gabort, st, 
+                             stid, ctodo, inj, cmd >>
 
 si1(self) == /\ pc[self] = "si1"
              /\ stack' = [stack EXCEPT ![self] = << [ procedure |->  "step_insn",
@@ -1620,11 +1645,11 @@ si1(self) == /\ pc[self] = "si1"
              /\ pc' = [pc EXCEPT ![self] = "sn0"]
              /\ UNCHANGED << code, kst, kstop, ksig, unrep, rip, sstep, intr, 
                              hpend, inh, adv, iter, pend, shpend, sent, deliv, 
-                             taken, prom, nsend, lost, badrecv, tstate, guard, 
-                             focus, sigq, ncmd, atPrompt, dead, phase, wst, 
-                             ret, retpid, retsig, round, hist, nsys, lastsys, 
-                             initiator, gtodo, gt, gdone, gabort, st, stid, 
-                             ctodo, inj, cmd >>
+                             taken, prom, nsend, lost, badrecv, fam, famwho, 
+                             tstate, guard, focus, sigq, ncmd, atPrompt, dead, 
+                             phase, wst, ret, retpid, retsig, round, hist, 
+                             nsys, lastsys, initiator, gtodo, gt, gdone, 
+                             gabort, st, stid, ctodo, inj, cmd >>
 
 si2(self) == /\ pc[self] = "si2"
              /\ IF ret = "signal"
@@ -1635,11 +1660,11 @@ si2(self) == /\ pc[self] = "si2"
              /\ stack' = [stack EXCEPT ![self] = Tail(stack[self])]
              /\ UNCHANGED << code, kst, kstop, ksig, unrep, rip, sstep, intr, 
                              hpend, inh, adv, iter, pend, shpend, sent, deliv, 
-                             taken, prom, nsend, lost, badrecv, tstate, guard, 
-                             focus, sigq, ncmd, atPrompt, dead, phase, wst, 
-                             ret, retsig, round, hist, nsys, lastsys, 
-                             initiator, gtodo, gt, gdone, gabort, st, stid, 
-                             ctodo, inj, cmd >>
+                             taken, prom, nsend, lost, badrecv, fam, famwho, 
+                             tstate, guard, focus, sigq, ncmd, atPrompt, dead, 
+                             phase, wst, ret, retsig, round, hist, nsys, 
+                             lastsys, initiator, gtodo, gt, gdone, gabort, st, 
+                             stid, ctodo, inj, cmd >>
 
 stepi(self) == si0(self) \/ si1(self) \/ si2(self)
 
@@ -1652,11 +1677,11 @@ sl0(self) == /\ pc[self] = "sl0"
                         /\ UNCHANGED << ret, stack >>
              /\ UNCHANGED << code, kst, kstop, ksig, unrep, rip, sstep, intr, 
                              hpend, inh, adv, iter, pend, shpend, sent, deliv, 
-                             taken, prom, nsend, lost, badrecv, tstate, guard, 
-                             focus, sigq, ncmd, atPrompt, dead, phase, wst, 
-                             retpid, retsig, round, hist, nsys, lastsys, 
-                             initiator, gtodo, gt, gdone, gabort, st, stid, 
-                             ctodo, inj, cmd >>
+                             taken, prom, nsend, lost, badrecv, fam, famwho, 
+                             tstate, guard, focus, sigq, ncmd, atPrompt, dead, 
+                             phase, wst, retpid, retsig, round, hist, nsys, 
+                             lastsys, initiator, gtodo, gt, gdone, gabort, st, 
+                             stid, ctodo, inj, cmd >>
 
 sl1(self) == /\ pc[self] = "sl1"
              /\ stack' = [stack EXCEPT ![self] = << [ procedure |->  "step_insn",
@@ -1665,11 +1690,11 @@ sl1(self) == /\ pc[self] = "sl1"
              /\ pc' = [pc EXCEPT ![self] = "sn0"]
              /\ UNCHANGED << code, kst, kstop, ksig, unrep, rip, sstep, intr, 
                              hpend, inh, adv, iter, pend, shpend, sent, deliv, 
-                             taken, prom, nsend, lost, badrecv, tstate, guard, 
-                             focus, sigq, ncmd, atPrompt, dead, phase, wst, 
-                             ret, retpid, retsig, round, hist, nsys, lastsys, 
-                             initiator, gtodo, gt, gdone, gabort, st, stid, 
-                             ctodo, inj, cmd >>
+                             taken, prom, nsend, lost, badrecv, fam, famwho, 
+                             tstate, guard, focus, sigq, ncmd, atPrompt, dead, 
+                             phase, wst, ret, retpid, retsig, round, hist, 
+                             nsys, lastsys, initiator, gtodo, gt, gdone, 
+                             gabort, st, stid, ctodo, inj, cmd >>
 
 sl2(self) == /\ pc[self] = "sl2"
              /\ IF ret = "signal"
@@ -1690,11 +1715,11 @@ sl2(self) == /\ pc[self] = "sl2"
                         /\ UNCHANGED retpid
              /\ UNCHANGED << code, kst, kstop, ksig, unrep, rip, sstep, intr, 
                              hpend, inh, adv, iter, pend, shpend, sent, deliv, 
-                             taken, prom, nsend, lost, badrecv, tstate, guard, 
-                             focus, sigq, ncmd, atPrompt, dead, phase, wst, 
-                             retsig, round, hist, nsys, lastsys, initiator, 
-                             gtodo, gt, gdone, gabort, st, stid, ctodo, inj, 
-                             cmd >>
+                             taken, prom, nsend, lost, badrecv, fam, famwho, 
+                             tstate, guard, focus, sigq, ncmd, atPrompt, dead, 
+                             phase, wst, retsig, round, hist, nsys, lastsys, 
+                             initiator, gtodo, gt, gdone, gabort, st, stid, 
+                             ctodo, inj, cmd >>
 
 stepline(self) == sl0(self) \/ sl1(self) \/ sl2(self)
 
@@ -1727,12 +1752,17 @@ d0 == /\ pc[0] = "d0"
                  /\ UNCHANGED << code, atPrompt, phase, nsys, lastsys, cmd >>
       /\ UNCHANGED << kst, kstop, ksig, unrep, rip, sstep, intr, hpend, inh, 
                       adv, iter, pend, shpend, sent, deliv, taken, prom, nsend, 
-                      lost, badrecv, tstate, guard, focus, sigq, ncmd, dead, 
-                      wst, ret, retpid, retsig, round, hist, stack, initiator, 
-                      gtodo, gt, gdone, gabort, st, stid, ctodo, inj >>
+                      lost, badrecv, fam, famwho, tstate, guard, focus, sigq, 
+                      ncmd, dead, wst, ret, retpid, retsig, round, hist, stack, 
+                      initiator, gtodo, gt, gdone, gabort, st, stid, ctodo, 
+                      inj >>
 
 d0h == /\ pc[0] = "d0h"
        /\ hist' = Append(hist, [cmd |-> cmd])
+       /\ IF fam \in {1, 2, 3} /\ cmd \notin {"stepi", "step"}
+             THEN /\ fam' = 0
+             ELSE /\ TRUE
+                  /\ fam' = fam
        /\ IF cmd = "continue"
              THEN /\ stack' = [stack EXCEPT ![0] = << [ procedure |->  "continue_execution",
                                                         pc        |->  "d1" ] >>
@@ -1749,10 +1779,10 @@ d0h == /\ pc[0] = "d0h"
                              /\ pc' = [pc EXCEPT ![0] = "sl0"]
        /\ UNCHANGED << code, kst, kstop, ksig, unrep, rip, sstep, intr, hpend, 
                        inh, adv, iter, pend, shpend, sent, deliv, taken, prom, 
-                       nsend, lost, badrecv, tstate, guard, focus, sigq, ncmd, 
-                       atPrompt, dead, phase, wst, ret, retpid, retsig, round, 
-                       nsys, lastsys, initiator, gtodo, gt, gdone, gabort, st, 
-                       stid, ctodo, inj, cmd >>
+                       nsend, lost, badrecv, famwho, tstate, guard, focus, 
+                       sigq, ncmd, atPrompt, dead, phase, wst, ret, retpid, 
+                       retsig, round, nsys, lastsys, initiator, gtodo, gt, 
+                       gdone, gabort, st, stid, ctodo, inj, cmd >>
 
 d1 == /\ pc[0] = "d1"
       /\ ncmd' = ncmd + 1
@@ -1767,26 +1797,37 @@ d1 == /\ pc[0] = "d1"
             ELSE /\ TRUE
                  /\ UNCHANGED << prom, badrecv, sigq >>
       /\ hist' = Append(hist, [stop |-> ret, tid |-> retpid, sig |-> retsig])
+      /\ IF fam = 1
+            THEN /\ IF ret = "signal" /\ retsig \notin (Quiet \cup Transparent) /\ retpid = famwho
+                       THEN /\ fam' = 2
+                       ELSE /\ fam' = 0
+            ELSE /\ IF fam = 3
+                       THEN /\ fam' = 4
+                       ELSE /\ IF fam = 2
+                                  THEN /\ fam' = 0
+                                  ELSE /\ TRUE
+                                       /\ fam' = fam
       /\ pc' = [pc EXCEPT ![0] = "d0"]
       /\ UNCHANGED << code, kst, kstop, ksig, unrep, rip, sstep, intr, hpend, 
                       inh, adv, iter, pend, shpend, sent, deliv, taken, nsend, 
-                      lost, tstate, guard, focus, dead, phase, wst, ret, 
-                      retpid, retsig, round, nsys, lastsys, stack, initiator, 
-                      gtodo, gt, gdone, gabort, st, stid, ctodo, inj, cmd >>
+                      lost, famwho, tstate, guard, focus, dead, phase, wst, 
+                      ret, retpid, retsig, round, nsys, lastsys, stack, 
+                      initiator, gtodo, gt, gdone, gabort, st, stid, ctodo, 
+                      inj, cmd >>
 
 dz == /\ pc[0] = "dz"
       /\ IF Gen
             THEN /\ PrintT(<<"BEH", ToJson([hist |-> hist, sent |-> sent, deliv |-> deliv, prom |-> prom, taken |-> taken,
                                             lost |-> lost, badrecv |-> badrecv, exited |-> AllGone, dead |-> dead,
-                                            nthreads |-> Cardinality(Threads), broken |-> Broken])>>)
+                                            nthreads |-> Cardinality(Threads), broken |-> Broken, fam |-> fam])>>)
             ELSE /\ TRUE
       /\ pc' = [pc EXCEPT ![0] = "Done"]
       /\ UNCHANGED << code, kst, kstop, ksig, unrep, rip, sstep, intr, hpend, 
                       inh, adv, iter, pend, shpend, sent, deliv, taken, prom, 
-                      nsend, lost, badrecv, tstate, guard, focus, sigq, ncmd, 
-                      atPrompt, dead, phase, wst, ret, retpid, retsig, round, 
-                      hist, nsys, lastsys, stack, initiator, gtodo, gt, gdone, 
-                      gabort, st, stid, ctodo, inj, cmd >>
+                      nsend, lost, badrecv, fam, famwho, tstate, guard, focus, 
+                      sigq, ncmd, atPrompt, dead, phase, wst, ret, retpid, 
+                      retsig, round, hist, nsys, lastsys, stack, initiator, 
+                      gtodo, gt, gdone, gabort, st, stid, ctodo, inj, cmd >>
 
 Dbg == d0 \/ d0h \/ d1 \/ dz
 
@@ -1796,6 +1837,14 @@ e0 == /\ pc[100] = "e0"
                  /\ \E s \in Sigs:
                       \E tgt \in {x \in Threads : Live(x)} \cup (IF ProcTarget /\ \E x \in Threads : Live(x) THEN {Proc} ELSE {}):
                         /\ nsend' = nsend + 1
+                        /\ IF fam = 0 /\ s \notin (Quiet \cup Transparent) /\ tgt # Proc
+                              THEN /\ fam' = 1
+                                   /\ famwho' = tgt
+                              ELSE /\ IF fam = 2 /\ s \in Quiet /\ tgt = famwho
+                                         THEN /\ fam' = 3
+                                         ELSE /\ TRUE
+                                              /\ fam' = fam
+                                   /\ UNCHANGED famwho
                         /\ IF tgt = Proc
                               THEN /\ hist' = Append(hist, [send |-> s, to |-> tgt, after |-> lastsys, prompt |-> atPrompt, coal |-> s \in shpend])
                                    /\ IF s \notin shpend
@@ -1813,7 +1862,7 @@ e0 == /\ pc[100] = "e0"
                                    /\ UNCHANGED shpend
                  /\ pc' = [pc EXCEPT ![100] = "e0"]
             ELSE /\ pc' = [pc EXCEPT ![100] = "Done"]
-                 /\ UNCHANGED << pend, shpend, sent, nsend, hist >>
+                 /\ UNCHANGED << pend, shpend, sent, nsend, fam, famwho, hist >>
       /\ UNCHANGED << code, kst, kstop, ksig, unrep, rip, sstep, intr, hpend, 
                       inh, adv, iter, deliv, taken, prom, lost, badrecv, 
                       tstate, guard, focus, sigq, ncmd, atPrompt, dead, phase, 
@@ -1924,10 +1973,10 @@ t0(self) == /\ pc[self] = "t0"
                        /\ UNCHANGED << kst, kstop, ksig, unrep, rip, sstep, 
                                        intr, hpend, inh, adv, iter, pend, 
                                        shpend, taken >>
-            /\ UNCHANGED << code, sent, deliv, prom, nsend, lost, badrecv, 
-                            tstate, guard, focus, sigq, ncmd, atPrompt, dead, 
-                            phase, wst, ret, retpid, retsig, round, hist, nsys, 
-                            lastsys, stack, initiator, gtodo, gt, gdone, 
+            /\ UNCHANGED << code, sent, deliv, prom, nsend, lost, badrecv, fam, 
+                            famwho, tstate, guard, focus, sigq, ncmd, atPrompt, 
+                            dead, phase, wst, ret, retpid, retsig, round, hist, 
+                            nsys, lastsys, stack, initiator, gtodo, gt, gdone, 
                             gabort, st, stid, ctodo, inj, cmd >>
 
 Thr(self) == t0(self)
@@ -1973,10 +2022,11 @@ Termination == <>(\A self \in ProcSet: pc[self] = "Done")
 
 
 
+
 \* hist / nsys / lastsys only describe how a state was reached (script generation); they are not state
 View == << pc, code, kst, kstop, ksig, unrep, rip, sstep, intr, hpend, inh,
            adv, iter, pend, shpend, sent, deliv, taken, prom, nsend, lost,
-           badrecv, tstate, guard, focus, sigq, ncmd, atPrompt, dead, phase,
+           badrecv, fam, famwho, tstate, guard, focus, sigq, ncmd, atPrompt, dead, phase,
            wst, ret, retpid, retsig, round, stack,
            initiator, gtodo, gt, gdone, gabort, st, stid, ctodo, inj, cmd >>
 =============================================================================
